@@ -739,11 +739,22 @@ func c03CheckNDP(tb drv.TB, rec *drv.Rec, sub string, c c03NDP) {
 	rec.Eval()
 	target := netip.MustParseAddr(c.Target)
 	var b []byte
+	changed := false
 	if p, sig, st := drv.Catch(func() {
 		if c.NS {
 			b, _ = packet.ICMP6NeighborSolicitationMarshal(target, net.HardwareAddr(c.MAC))
 		} else {
 			b = packet.ICMP6NeighborAdvertisementMarshal(c.Router, c.Solicited, c.Override, packet.Addr{MAC: net.HardwareAddr(c.MAC), IP: target})
+		}
+		// the caller keeps the message while it builds the next ones (a burst of solicitations / advertisements): what Marshal
+		// returned must not change under it
+		keep := append([]byte(nil), b...)
+		other := netip.AddrFrom16([16]byte{0xfe, 0x80, 15: 0x77})
+		packet.ICMP6NeighborSolicitationMarshal(other, net.HardwareAddr{0xee, 0xee, 0xee, 0xee, 0xee, 0xee})
+		packet.ICMP6NeighborAdvertisementMarshal(!c.Router, !c.Solicited, !c.Override, packet.Addr{MAC: net.HardwareAddr{0xdd, 0xdd, 0xdd, 0xdd, 0xdd, 0xdd}, IP: other})
+		if !bytes.Equal(keep, b) {
+			b = append(b[:0:0], b...)
+			changed = true
 		}
 	}); p != nil {
 		rec.Violation(tb, sub, "ndp-"+sig, c, "NDP marshal panicked: %v\n%s", p, st)
@@ -751,6 +762,10 @@ func c03CheckNDP(tb drv.TB, rec *drv.Rec, sub string, c c03NDP) {
 	}
 	fail := func(what string, got, want interface{}) {
 		rec.Violation(tb, sub, "roundtrip-ndp-"+what, c, "%s: %v, want %v (% x)", what, got, want, b)
+	}
+	if changed {
+		fail("message-changed-by-later-marshal", "the returned bytes changed when two further messages were marshalled", "a message of its own")
+		return
 	}
 	if len(b) != 32 {
 		fail("length", len(b), 32)
